@@ -1441,8 +1441,13 @@ class TypeBlocks(ContainerOperand):
         row_count, column_count = self._shape
 
         # new start index is the opposite of the shift; if shifting by 2, the new start is the second from the end
+        if not column_count:
+            # no columns: nothing to move
+            yield from self._blocks
+            return
+
         index_start_pos = -(column_shift % column_count)
-        row_start_pos = -(row_shift % row_count)
+        row_start_pos = -(row_shift % row_count) if row_count else 0
 
         # possibly be truthy
         # index is columns here
